@@ -56,6 +56,11 @@ func (fc *fnCtx) execCall(st *State, x *ssa.Call) {
 	}
 	callee := common.StaticCallee()
 	if callee == nil {
+		if n := dynCalleeName(common.Value); n != "" && !fc.inline && !fc.specMode && fc.contract != nil && len(fc.contract.Calls) > 0 {
+			// `call <variable>#k assert`: ghost assertion at the k-th call through that function variable
+			k := fc.siteOrd(x, n)
+			fc.siteAsserts(st, n, fmt.Sprintf("%s@%d", n, k), args)
+		}
 		fc.unknownCall(st, x, "dynamic call through a function value")
 		return
 	}
@@ -161,6 +166,27 @@ func (fc *fnCtx) callFunction(st *State, x *ssa.Call, callee *ssa.Function, args
 	return fc.applyContract(st, callee, c, args, ordKey, pos)
 }
 
+// dynCalleeName names a call through a function-typed variable (captured variable, parameter
+// or local loaded from its cell) by the variable's source name.
+func dynCalleeName(v ssa.Value) string {
+	switch x := v.(type) {
+	case *ssa.FreeVar:
+		return x.Name()
+	case *ssa.Parameter:
+		return x.Name()
+	case *ssa.UnOp:
+		if x.Op == token.MUL {
+			switch a := x.X.(type) {
+			case *ssa.Alloc:
+				return a.Comment
+			case *ssa.FreeVar:
+				return a.Name()
+			}
+		}
+	}
+	return ""
+}
+
 // siteOrdinals numbers the call sites of each callee name of a function in source order.
 func siteOrdinals(fn *ssa.Function) map[ssa.Instruction]int {
 	type site struct {
@@ -187,6 +213,8 @@ func siteOrdinals(fn *ssa.Function) map[ssa.Instruction]int {
 				name = callee.Name()
 			} else if bi, ok := c.Value.(*ssa.Builtin); ok {
 				name = bi.Name()
+			} else if n := dynCalleeName(c.Value); n != "" {
+				name = n
 			} else {
 				continue
 			}
